@@ -8,12 +8,17 @@ import re
 
 def literal(rng, kind=None):
     """a random STRING literal (with quotes) and the bytes it denotes, written from the documented escapes"""
+    if kind is None and rng.random() < 0.05:
+        # the name of the default variant, wherever a string may stand (a variant named "default" is still a token of the source)
+        return '"default"', b"default"
     kind = kind if kind is not None else rng.randrange(7)
     if kind == 6:
         # literals that look like syntax: punctuation next to blanks, comment signs, keywords
         s = rng.choice([" ;", "a ; b", "x ;", "; ", "{ }", " { ", " #c", "# x", "set", " set uri ", "}", ";;", "  ", "a  b", "print;",
                         # literals that span lines (raw line breaks and tabs inside the quotes denote themselves)
                         "line1\nline2", "a\r\nb", "\n", "\tx\n", "GET /x\nHost: h\n\n", "# c\n;",
+                        # values that are also defaults / reserved words of the language
+                        "default", "default", "Default", "true", "false", "0", "",
                         None, None, None])
         if s is None:
             # escaped quotes / backslashes at the edges of the literal
